@@ -89,6 +89,18 @@ func (d *dsys) retained() string {
 	return sortedJoin(r)
 }
 
+func (d *dsys) lookup(filter string) string {
+	var r []string
+	ms, err := d.st.Topics().Get([]byte(filter))
+	if err != nil {
+		return "error"
+	}
+	for _, m := range ms {
+		r = append(r, string(m.Publish.Topic)+"="+string(m.Publish.Payload))
+	}
+	return "[" + sortedJoin(r) + "]"
+}
+
 // mirrorView: what a second node lists after receiving everything this node queued (plus extra payloads)
 func (d *dsys) mirrorView(extra ...[]byte) string {
 	m := newDsys()
@@ -380,6 +392,28 @@ func scenarios() []*Scenario {
 			return "converged " + own
 		},
 	})
+	// (3d) retained-message lookups (new subscribers) reaching below a stored leaf and into an empty branch, while a
+	// publisher stores another retained message
+	out = append(out, &Scenario{
+		Name: "distributed: topics lookups, Get(m/t/u);Get(m/+) || Get(m/t/v);Get(q/r) || Set(m/v,w);Get(m/v/x)",
+		New: func() any {
+			clockTick.Store(0)
+			d := newDsys()
+			d.st.Topics().Set(&packet.Publish{Header: &packet.Header{}, Topic: []byte("m/t"), Payload: []byte("x")})
+			return d
+		},
+		Threads: [][]Op{
+			{{"Get(m/t/u)", func(s any) string { return s.(*dsys).lookup("m/t/u") }},
+				{"Get(m/+)", func(s any) string { return s.(*dsys).lookup("m/+") }}},
+			{{"Get(m/t/v)", func(s any) string { return s.(*dsys).lookup("m/t/v") }},
+				{"Get(q/r)", func(s any) string { return s.(*dsys).lookup("q/r") }}},
+			{{"Set(m/v,w)", func(s any) string {
+				return errs(s.(*dsys).st.Topics().Set(&packet.Publish{Header: &packet.Header{}, Topic: []byte("m/v"), Payload: []byte("w")}))
+			}},
+				{"Get(m/v/x)", func(s any) string { return s.(*dsys).lookup("m/v/x") }}},
+		},
+		Observe: func(s any) string { return "retained[" + s.(*dsys).retained() + "]" },
+	})
 	// (2b) a pool nobody has used yet
 	out = append(out, &Scenario{
 		Name: "idpool: fresh pool, Get || Get || Get;Put",
@@ -467,9 +501,10 @@ func scenarios() []*Scenario {
 			return sortedJoin(append([]string{}, a.log...))
 		},
 	})
-	// (8) the message log under concurrent appends (no shimmed lock inside: one schedule; the race pass is what matters)
+	// (8) the message log under concurrent appends: the commit-log library's mutexes are shimmed too, so whatever the store
+	// does outside them (encoding the message) interleaves with the other appenders
 	out = append(out, &Scenario{
-		Name: "messages.Log: Append(x) || Append(y) || Append(z) (race pass only)",
+		Name: "messages.Log: Append(x) || Append(y) || Append(z)",
 		New: func() any {
 			dir, _ := os.MkdirTemp(os.Getenv("VERIF_SCRATCH"), "e4log")
 			l, err := messages.New(dir)
@@ -496,9 +531,8 @@ func scenarios() []*Scenario {
 			}
 			ls.l.Close()
 			os.RemoveAll(ls.dir)
-			return sortedJoin(got)
+			return strings.Join(got, ",") // offsets 0,1,2 in order: which append took which offset is part of the outcome
 		},
-		RaceOnly: true,
 	})
 	// (9) one message fanned out to two QoS 1 recipients while their acknowledgements arrive
 	out = append(out, &Scenario{
@@ -549,6 +583,45 @@ func scenarios() []*Scenario {
 		},
 		SingleOutcome: true,
 	})
+	// (10) the client acknowledges a QoS 1 delivery as soon as it has read it: by then the broker must know the delivery
+	out = append(out, &Scenario{
+		Name: "writer: deliver(m -> s1 at QoS 1) || client s1 sends PUBACK once it has read the PUBLISH",
+		New: func() any {
+			ws := &writerSys{local: wasp.NewState(1), q: ack.NewQueue(), conns: map[string]*sinkConn{}}
+			ws.w = wasp.VerifNewWriter(1, nil, ws.local, ws.q, 1, 4)
+			ws.conns["s1"] = &sinkConn{}
+			sess, _ := sessions.NewSession("s1", "m", "tcp", ws.conns["s1"], &packet.Connect{Header: &packet.Header{}, ClientId: []byte("s1"), KeepaliveTimer: 60})
+			ws.local.Create("s1", sess)
+			return ws
+		},
+		Threads: [][]Op{
+			{{Name: "deliver(m)", Run: func(s any) string {
+				ws := s.(*writerSys)
+				wasp.VerifWriterDeliver(context.Background(), ws.w, []string{"s1"}, []int32{1}, &packet.Publish{Header: &packet.Header{}, Topic: []byte("m/t"), Payload: []byte("m")})
+				return ""
+			}}},
+			{{Name: "PUBACK(what was read)", Run: func(s any) string { return s.(*writerSys).ackLast("s1") }}},
+		},
+		Guards: map[[2]int]func(s any) bool{{1, 0}: func(s any) bool { return s.(*writerSys).conns["s1"].last() != 0 }},
+		// nothing is in flight any more: every identifier is free and a sweep far in the future has nothing to send again
+		Observe: func(s any) string {
+			ws := s.(*writerSys)
+			before := ws.conns["s1"].writes()
+			ws.q.Expire(time.Now().Add(time.Hour))
+			resent := ws.conns["s1"].writes() - before
+			pool := wasp.VerifWriterPool(ws.w)
+			var free []string
+			for i := 0; i < 6; i++ {
+				v := pool.Get()
+				if v < 1 || v > 4 {
+					break
+				}
+				free = append(free, fmt.Sprint(v))
+			}
+			return fmt.Sprintf("resent-after-ack:%d free:%s", resent, sortedJoin(free))
+		},
+		SingleOutcome: true,
+	})
 	// (7) per-session filter list
 	out = append(out, &Scenario{
 		Name: "Session: AddTopic(a);AddTopic(b) || RemoveTopic(a) || GetTopics;AddTopic(c)",
@@ -585,10 +658,16 @@ func (ws *writerSys) ackLast(session string) string {
 type sinkConn struct {
 	mu     sync.Mutex
 	lastID int32
+	n      int
 }
+
+func (c *sinkConn) writes() int { c.mu.Lock(); defer c.mu.Unlock(); return c.n }
 
 func (c *sinkConn) Read(b []byte) (int, error) { select {} }
 func (c *sinkConn) Write(b []byte) (int, error) {
+	c.mu.Lock()
+	c.n++
+	c.mu.Unlock()
 	// PUBLISH with a 1-byte remaining length (the scenario's packets are tiny): [hdr][len][tl hi][tl lo][topic][id hi][id lo]...
 	if len(b) > 6 && b[0]>>4 == 3 && (b[0]>>1)&3 > 0 {
 		tl := int(b[2])<<8 | int(b[3])
